@@ -94,6 +94,7 @@ void add_trailing_sep(DString * d) { ds_relen(d); }
 void d_string_erase(DString * d, size_t pos, size_t len) {
 	size_t L = d->currentStringLength;
 	if (d == &g_p0->buf.d && pos == 0 && len == g_p0->meta_off) { g_p0->strip_done = true; }
+	if (d == &g_p0->buf.d) { ASSERT(len == 0 || (g_p0->strip_needed && pos == 0 && len == g_p0->meta_off), "(X) nothing but its metadata block -- when the engine reports one -- is erased from the included text (a file without metadata is inserted whole)"); }
 	if (pos > L || len == 0) { return; }
 	path_changed(d);
 	if (len >= L - pos) { d->currentStringLength = pos; } else { d->currentStringLength = L - len; }
@@ -147,7 +148,9 @@ bool is_separator(char c) { bool r; return r; }
 /* ------------------------------------------------------------------ engine: by contract (metadata end offset inside the string) */
 mmd_engine * mmd_engine_create_with_dstring(DString * d, unsigned long extensions) { dsobj * e = &g_p0->eng; obj_init(e, 0); e->eng_d = d; return (mmd_engine *)e; }
 bool mmd_engine_has_metadata(mmd_engine * e, size_t * end) {
-	bool r; size_t off; ASSUME(off <= g_p0->eng.eng_d->currentStringLength); *end = off;
+	/* as the real function: *end is the end of the metadata block when there is one; when there is none it is set to 0 or LEFT AS IT WAS
+	 * (read from mmd_engine_has_metadata: only the quick-reject path stores 0) */
+	bool r; size_t off; ASSUME(off <= g_p0->eng.eng_d->currentStringLength); bool stores; if (r) { *end = off; } else { off = 0; if (stores) { *end = 0; } }
 	if (g_p0->eng.eng_d == &g_p0->buf.d) { g_p0->strip_needed = r && off > 0; g_p0->meta_off = off; g_p0->strip_done = false; }      /* asked about the file just read */
 	return r;
 }
